@@ -15,6 +15,7 @@ package gocql
 
 import (
 	"bufio"
+	"bytes"
 	"encoding/hex"
 	"encoding/json"
 	"fmt"
@@ -27,6 +28,7 @@ import (
 	"sort"
 	"strconv"
 	"strings"
+	"sync"
 	"testing"
 	"time"
 
@@ -1017,26 +1019,63 @@ func vfC12UnmarshalAll(info TypeInfo, t *vfC12Type, proto int, k *vfC12Kind, dat
 	return fresh, dirty, reuse
 }
 
-func vfC12RunCase(c *vfC12Case) vfC12Obj {
+// vfC12Kept: a marshalled value that stays referenced while further values are marshalled
+// (hold-and-recheck: the bytes Marshal returned must still be the value's encoding later on -
+// Conn.executeQuery marshals every bind value of a statement before it builds the frame).
+type vfC12Kept struct {
+	id    int
+	info  TypeInfo
+	val   reflect.Value
+	data  []byte // the very slice Marshal returned
+	first []byte // its content at that moment
+	coll  bool
+}
+
+func vfC12Later(id int, mode string, b []byte, err error) vfC12Obj {
+	r := vfC12Obj{"later_of": id, "mode": mode}
+	switch {
+	case err != nil:
+		r["res_later"] = vfC12Obj{"st": "err", "b": []int{}, "err": err.Error()}
+	case b == nil:
+		r["res_later"] = vfC12Obj{"st": "null", "b": []int{}}
+	default:
+		r["res_later"] = vfC12Obj{"st": "ok", "b": vfC12Ints(b)}
+	}
+	return r
+}
+
+func vfC12Arg(val reflect.Value) interface{} {
+	if val.IsValid() && !(val.Kind() == reflect.Interface && val.IsNil()) {
+		return val.Interface()
+	}
+	return nil
+}
+
+func vfC12RunCase(c *vfC12Case) (vfC12Obj, *vfC12Kept) {
 	out := vfC12Obj{"id": c.ID}
 	info, err := vfC12Info(&c.T, byte(c.P))
 	if err != nil {
 		out["harness"] = err.Error()
-		return out
+		return out, nil
 	}
 	val, err := vfC12Build(&c.K, &c.Gv, &c.T)
 	if err != nil {
 		out["harness"] = err.Error()
-		return out
+		return out, nil
 	}
 	if c.Dec != "" && c.Gv.K == "int" { // cross-check of the value mapping against TLC's decimal rendering
 		if x, _ := vfC12Big(&c.Gv); x.String() != c.Dec {
 			out["harness"] = "decimal rendering differs: " + x.String() + " vs " + c.Dec
-			return out
+			return out, nil
 		}
 	}
 	res, data := vfC12Marshal(info, val)
 	out["res"] = res
+	var kept *vfC12Kept
+	if res["st"] == "ok" {
+		kept = &vfC12Kept{id: c.ID, info: info, val: val, data: data, first: append([]byte{}, data...),
+			coll: c.T.T == "list" || c.T.T == "set" || c.T.T == "map" || c.T.T == "tuple" || c.T.T == "udt"}
+	}
 	var specData []byte
 	switch c.Spec.St {
 	case "ok":
@@ -1066,6 +1105,139 @@ func vfC12RunCase(c *vfC12Case) vfC12Obj {
 		decs = append(decs, d)
 	}
 	out["decs"] = decs
+	return out, kept
+}
+
+// ---------------------------------------------------------------- [short] framing limits (big values)
+
+type vfC12BigCase struct {
+	ID    int    `json:"id"`
+	Form  string `json:"form"`
+	P     int    `json:"p"`
+	Size  int    `json:"size"`
+	Count int    `json:"count"`
+}
+
+func vfC12Pattern(n int) []byte {
+	b := make([]byte, n)
+	for j := range b {
+		b[j] = byte(j % 251)
+	}
+	return b
+}
+
+// vfC12RunBig builds the described value (see Gen_Cql.tla, BigSet), marshals it and reports whether it
+// was refused, the total length and the first bytes of the output, and a summary of the round trip
+// through the real Unmarshal (element count, equality with the input decided by Go's own comparison).
+func vfC12RunBig(c *vfC12BigCase) (out vfC12Obj) {
+	out = vfC12Obj{"id": c.ID}
+	defer func() {
+		if r := recover(); r != nil {
+			out["st"] = "panic"
+			out["err"] = fmt.Sprint(r)
+		}
+	}()
+	p := byte(c.P)
+	nt := func(t Type) TypeInfo { return NewNativeType(p, t, "") }
+	coll := func(t Type, k, e TypeInfo) TypeInfo { return CollectionType{NativeType: NewNativeType(p, t, ""), Key: k, Elem: e} }
+	big := vfC12Pattern(c.Size)
+	var info TypeInfo
+	var value interface{}
+	var target interface{}
+	var equal func() (int, bool)
+	switch c.Form {
+	case "list-elem":
+		info = coll(TypeList, nil, nt(TypeBlob))
+		in := [][]byte{big, []byte("ab")}
+		var got [][]byte
+		value, target = in, &got
+		equal = func() (int, bool) {
+			return len(got), len(got) == 2 && bytes.Equal(got[0], in[0]) && bytes.Equal(got[1], in[1])
+		}
+	case "set-elem":
+		info = coll(TypeSet, nil, nt(TypeText))
+		in := []string{string(big)}
+		var got []string
+		value, target = in, &got
+		equal = func() (int, bool) { return len(got), len(got) == 1 && got[0] == in[0] }
+	case "map-key":
+		info = coll(TypeMap, nt(TypeText), nt(TypeInt))
+		in := map[string]int32{string(big): 1}
+		var got map[string]int32
+		value, target = in, &got
+		equal = func() (int, bool) { return len(got), reflect.DeepEqual(got, in) }
+	case "map-val":
+		info = coll(TypeMap, nt(TypeInt), nt(TypeBlob))
+		in := map[int32][]byte{7: big}
+		var got map[int32][]byte
+		value, target = in, &got
+		equal = func() (int, bool) { return len(got), reflect.DeepEqual(got, in) }
+	case "list-count":
+		info = coll(TypeList, nil, nt(TypeTinyInt))
+		in := make([]int8, c.Count)
+		for i := range in {
+			in[i] = int8(i % 100)
+		}
+		var got []int8
+		value, target = in, &got
+		equal = func() (int, bool) { return len(got), reflect.DeepEqual(got, in) }
+	case "set-count":
+		info = coll(TypeSet, nil, nt(TypeInt))
+		in := make(map[int32]struct{}, c.Count)
+		for i := 0; i < c.Count; i++ {
+			in[int32(i)] = struct{}{}
+		}
+		var got []int32
+		value, target = in, &got
+		equal = func() (int, bool) {
+			seen := make(map[int32]struct{}, len(got))
+			for _, x := range got {
+				seen[x] = struct{}{}
+			}
+			return len(got), len(got) == len(in) && reflect.DeepEqual(seen, in)
+		}
+	case "map-count":
+		info = coll(TypeMap, nt(TypeInt), nt(TypeTinyInt))
+		in := make(map[int32]int8, c.Count)
+		for i := 0; i < c.Count; i++ {
+			in[int32(i)] = int8(i % 100)
+		}
+		var got map[int32]int8
+		value, target = in, &got
+		equal = func() (int, bool) { return len(got), reflect.DeepEqual(got, in) }
+	default:
+		out["harness"] = "unknown big form " + c.Form
+		return out
+	}
+	b, err := Marshal(info, value)
+	out["prefix"] = []int{}
+	out["total"] = 0
+	out["rt"] = vfC12Obj{"st": "none", "count": 0, "equal": false}
+	if err != nil {
+		out["st"] = "err"
+		out["err"] = err.Error()
+		return out
+	}
+	out["st"] = "ok"
+	out["total"] = len(b)
+	n := len(b)
+	if n > 24 {
+		n = 24
+	}
+	out["prefix"] = vfC12Ints(b[:n])
+	func() {
+		defer func() {
+			if r := recover(); r != nil {
+				out["rt"] = vfC12Obj{"st": "panic", "count": 0, "equal": false, "err": fmt.Sprint(r)}
+			}
+		}()
+		if err := Unmarshal(info, b, target); err != nil {
+			out["rt"] = vfC12Obj{"st": "err", "count": 0, "equal": false, "err": err.Error()}
+			return
+		}
+		cnt, eq := equal()
+		out["rt"] = vfC12Obj{"st": "ok", "count": cnt, "equal": eq}
+	}()
 	return out
 }
 
@@ -1086,7 +1258,36 @@ func TestVfC12Replay(t *testing.T) {
 	bw := bufio.NewWriterSize(w, 1<<20)
 	sc := bufio.NewScanner(f)
 	sc.Buffer(make([]byte, 1<<20), 1<<26)
-	n := 0
+	n, nstmt := 0, 0
+	emit := func(r vfC12Obj) {
+		js, err := json.Marshal(r)
+		if err != nil {
+			t.Fatal(err)
+		}
+		bw.Write(js)
+		bw.WriteByte('\n')
+	}
+	held := []*vfC12Kept{}
+	stmt := []*vfC12Kept{}
+	flushStmt := func() {
+		qv := make([]queryValues, len(stmt))
+		errs := make([]error, len(stmt))
+		for i, k := range stmt {
+			func() {
+				defer func() {
+					if r := recover(); r != nil {
+						errs[i] = fmt.Errorf("panic: %v", r)
+					}
+				}()
+				errs[i] = marshalQueryValue(k.info, vfC12Arg(k.val), &qv[i])
+			}()
+		}
+		for i, k := range stmt { // all values of the statement are read after the last one was marshalled
+			emit(vfC12Later(k.id, "statement", qv[i].value, errs[i]))
+			nstmt++
+		}
+		stmt = stmt[:0]
+	}
 	for sc.Scan() {
 		if len(sc.Bytes()) == 0 {
 			continue
@@ -1095,21 +1296,105 @@ func TestVfC12Replay(t *testing.T) {
 		if err := json.Unmarshal(sc.Bytes(), &c); err != nil {
 			t.Fatalf("case %d: %v", n, err)
 		}
-		r := vfC12RunCase(&c)
-		js, err := json.Marshal(r)
-		if err != nil {
-			t.Fatal(err)
-		}
-		bw.Write(js)
-		bw.WriteByte('\n')
+		r, kept := vfC12RunCase(&c)
+		emit(r)
 		n++
+		if kept == nil {
+			continue
+		}
+		held = append(held, kept)
+		// the bind values of one statement: marshalQueryValue for each of them, then all are read
+		stmt = append(stmt, kept)
+		if len(stmt) == 4 {
+			flushStmt()
+		}
 	}
 	if err := sc.Err(); err != nil {
 		t.Fatal(err)
 	}
+	flushStmt()
+	// concurrent marshalling: a sample of the values (every collection, every 7th other value) is marshalled and
+	// held by this goroutine while four others marshal the same sample over and over
+	sample := []*vfC12Kept{}
+	for i, k := range held {
+		if (k.coll || i%7 == 0) && len(sample) < 3000 {
+			sample = append(sample, k)
+		}
+	}
+	var wg sync.WaitGroup
+	stop := make(chan struct{})
+	for g := 0; g < 4; g++ {
+		wg.Add(1)
+		go func(g int) {
+			defer wg.Done()
+			defer func() { recover() }()
+			for round := 0; ; round++ {
+				for i := range sample {
+					select {
+					case <-stop:
+						return
+					default:
+					}
+					k := sample[(i*7+g*13+round)%len(sample)]
+					Marshal(k.info, vfC12Arg(k.val))
+				}
+			}
+		}(g)
+	}
+	conc := make([]*vfC12Kept, 0, len(sample))
+	for _, k := range sample {
+		res, data := vfC12Marshal(k.info, k.val)
+		if res["st"] == "ok" {
+			conc = append(conc, &vfC12Kept{id: k.id, data: data, first: append([]byte{}, data...)})
+		} else {
+			emit(vfC12Later(k.id, "concurrent", nil, fmt.Errorf("%v", res["err"])))
+		}
+	}
+	close(stop)
+	wg.Wait()
+	nlater := 0
+	for _, k := range conc {
+		// what Marshal returned while the other goroutines were marshalling, and what the slice holds now
+		emit(vfC12Later(k.id, "concurrent-first", k.first, nil))
+		if !bytes.Equal(k.data, k.first) {
+			emit(vfC12Later(k.id, "concurrent", k.data, nil))
+			nlater++
+		}
+	}
+	// every output of the sequential run, re-read now that thousands of further values were marshalled
+	for _, k := range held {
+		if !bytes.Equal(k.data, k.first) {
+			emit(vfC12Later(k.id, "held", k.data, nil))
+			nlater++
+		}
+	}
+	nbig := 0
+	if bigIn := os.Getenv("VF_BIG"); bigIn != "" {
+		bf, err := os.Open(bigIn)
+		if err != nil {
+			t.Fatal(err)
+		}
+		bs := bufio.NewScanner(bf)
+		bs.Buffer(make([]byte, 1<<20), 1<<24)
+		for bs.Scan() {
+			if len(bs.Bytes()) == 0 {
+				continue
+			}
+			var c vfC12BigCase
+			if err := json.Unmarshal(bs.Bytes(), &c); err != nil {
+				t.Fatal(err)
+			}
+			r := vfC12RunBig(&c)
+			r["big"] = true
+			emit(r)
+			nbig++
+		}
+		bf.Close()
+	}
 	bw.Flush()
 	w.Close()
-	fmt.Printf("VFSUMMARY {\"cases\": %d}\n", n)
+	fmt.Printf("VFSUMMARY {\"cases\": %d, \"held\": %d, \"statement_values\": %d, \"concurrent\": %d, \"changed_later\": %d, \"big\": %d}\n",
+		n, len(held), nstmt, len(conc), nlater, nbig)
 }
 
 // ---------------------------------------------------------------- seeded random vectors (code -> spec)
@@ -1520,13 +1805,19 @@ func vfC12KindObj(k *vfC12Kind) vfC12Obj {
 // vfC12Vector runs Marshal on (kind, value) and Unmarshal of the real bytes into every target kind
 // and returns the record TLC validates (Trace_Cql.tla).
 func vfC12Vector(n int, ct *vfC12Type, ck *vfC12Kind, cv *vfC12Val, proto int, targets []vfC12Kind) (vfC12Obj, error) {
+	rec, _, err := vfC12VectorHeld(n, ct, ck, cv, proto, targets)
+	return rec, err
+}
+
+// vfC12VectorHeld also returns the slice Marshal returned, for the hold-and-recheck at the end of the run.
+func vfC12VectorHeld(n int, ct *vfC12Type, ck *vfC12Kind, cv *vfC12Val, proto int, targets []vfC12Kind) (vfC12Obj, []byte, error) {
 	info, err := vfC12Info(ct, byte(proto))
 	if err != nil {
-		return nil, err
+		return nil, nil, err
 	}
 	val, err := vfC12Build(ck, cv, ct)
 	if err != nil {
-		return nil, err
+		return nil, nil, err
 	}
 	res, data := vfC12Marshal(info, val)
 	rec := vfC12Obj{"n": n, "T": vfC12TypeObj(ct), "p": proto, "K": vfC12KindObj(ck), "gv": vfC12ValObj(cv), "res": res}
@@ -1551,7 +1842,7 @@ func vfC12Vector(n int, ct *vfC12Type, ck *vfC12Kind, cv *vfC12Val, proto int, t
 		}
 	}
 	rec["decs"] = decs
-	return rec, nil
+	return rec, data, nil
 }
 
 // TestVfC12Rerun re-executes given inputs (replay of a reported violation): NDJSON lines
@@ -1613,6 +1904,12 @@ func TestVfC12Random(t *testing.T) {
 		n = 1000
 	}
 	g := &vfC12Gen{r: rand.New(rand.NewSource(seed))}
+	type heldVec struct {
+		n           int
+		rec         vfC12Obj
+		data, first []byte
+	}
+	held := []heldVec{}
 	w, err := os.Create(out)
 	if err != nil {
 		t.Fatal(err)
@@ -1624,7 +1921,7 @@ func TestVfC12Random(t *testing.T) {
 		depth := []int{0, 0, 1, 1, 2}[g.r.Intn(5)]
 		g.clean = depth > 0
 		ct, ck, cv := g.value(depth, proto, false)
-		rec, err := vfC12Vector(written, &ct, &ck, &cv, proto, g.targets(&ct, &ck))
+		rec, data, err := vfC12VectorHeld(written, &ct, &ck, &cv, proto, g.targets(&ct, &ck))
 		if err != nil {
 			continue // e.g. two abstract keys that collapse into one Go key
 		}
@@ -1634,9 +1931,26 @@ func TestVfC12Random(t *testing.T) {
 		}
 		bw.Write(js)
 		bw.WriteByte('\n')
+		if data != nil {
+			held = append(held, heldVec{n: written, rec: rec, data: data, first: append([]byte{}, data...)})
+		}
 		written++
+	}
+	// hold-and-recheck: every vector's bytes are read again after all later values were marshalled; a vector
+	// whose bytes changed is recorded once more (with the later bytes) and judged by TLC like the first
+	changed := 0
+	for _, h := range held {
+		if bytes.Equal(h.data, h.first) {
+			continue
+		}
+		later := vfC12Obj{"n": 1000000 + h.n, "later_of": h.n, "mode": "held", "T": h.rec["T"], "p": h.rec["p"], "K": h.rec["K"], "gv": h.rec["gv"],
+			"res": vfC12Obj{"st": "ok", "b": vfC12Ints(h.data)}, "decs": []interface{}{}}
+		js, _ := json.Marshal(later)
+		bw.Write(js)
+		bw.WriteByte('\n')
+		changed++
 	}
 	bw.Flush()
 	w.Close()
-	fmt.Printf("VFSUMMARY {\"vectors\": %d}\n", written)
+	fmt.Printf("VFSUMMARY {\"vectors\": %d, \"held\": %d, \"changed_later\": %d}\n", written, len(held), changed)
 }
